@@ -41,7 +41,7 @@ def run_requests(ck, exe, reqs, jobs):
     rp = os.path.join(ck.work, "req.ndjson")
     vlib.write_ndjson(rp, reqs)
     n = len(reqs)
-    chunk = 8
+    chunk = 6
     chunks = [(a, min(n, a + chunk)) for a in range(0, n, chunk)]
     outs = {}
     running = []
@@ -62,7 +62,7 @@ def run_requests(ck, exe, reqs, jobs):
         for (p, a, b, op, ts) in running:
             rc = p.poll()
             if rc is None:
-                if time.time() - ts > 100 * (b - a) + 120:
+                if time.time() - ts > 900 * (b - a):      # the harness limits the CPU of each request itself (120 s)
                     p.kill()
                     raise Broken("harness fit_run stuck on requests %d..%d" % (a, b))
                 still.append((p, a, b, op, ts))
@@ -149,13 +149,32 @@ def judge_selftest(ck, recs):
 def describe(req, out, fails):
     """Record used for the known-finding match: the clause + the narrow circumstances."""
     kinds = sorted(set("%s-%s" % (c["elem"], c["type"]) for c in req["cons"]))
-    flags = {"flip_" + f: (f in req["optrow"]) for f in ("noreduce", "aniso", "rot", "samerot", "rot2d", "no3d", "iso2d", "goulard", "keepint", "intrinsic")}
-    return dict(flags, **{"clause": None, "has_angle_item": any(c["elem"] == "ANGLE" for c in req["cons"]),
-            "rotation_inferable": len(req["dirs"]) > req["ndim"] or req["entry"] == "vmap", "entry": req["entry"], "nvar": req["nvar"], "multivariate": req["nvar"] > 1, "ndim": req["ndim"],
-            "geom": req["geom"], "ndir": len(req["dirs"]), "recipe": req["recipe"], "empty": req["empty"],
-            "types": "+".join(req["types"]), "nstruct": len(req["types"]), "consname": req["consname"], "conskinds": "+".join(kinds),
-            "csill": req["csill"] > 0, "optrow": "+".join(sorted(req["optrow"])), "maxiter": req["maxiter"],
-            "wmode": req["wmode"], "truth": req["truthname"], "fails": fails})
+    flips = {"flip_" + f: (f in req["optrow"]) for f in ("noreduce", "aniso", "rot", "samerot", "rot2d", "no3d", "iso2d", "goulard", "keepint", "intrinsic")}
+    ndir, ndim = len(req["dirs"]), req["ndim"]
+    directional = req["entry"] != "vmap"
+    # parameters that the fit does not infer (rules of st_alter_model_optvar): rotation unless there are more
+    # directions than space dimensions, anisotropy unless there are two directions, third range unless one
+    # direction leaves the horizontal plane; also what the caller switched off himself
+    rot_inferable = (not directional) or (ndir > ndim and ndim >= 2)
+    aniso_inferable = (not directional) or (ndir >= 2 and ndim >= 2)
+    r3_inferable = (not directional) or any(d[1] != 0 for d in req["dirs"])
+    unf = False
+    for c in req["cons"]:
+        if c["elem"] == "ANGLE" and (not rot_inferable or "rot" in req["optrow"] or "aniso" in req["optrow"] or "iso2d" in req["optrow"]):
+            unf = True
+        if c["elem"] == "RANGE" and c["iv1"] >= 1 and (not aniso_inferable or "aniso" in req["optrow"]):
+            unf = True
+        if c["elem"] == "RANGE" and c["iv1"] == 2 and (not r3_inferable or "no3d" in req["optrow"]):
+            unf = True
+    dropped = bool(out) and "model" in out and len(out["model"]["covs"]) < len(req["types"])
+    rec = {"clause": None, "entry": req["entry"], "nvar": req["nvar"], "multivariate": req["nvar"] > 1, "ndim": ndim,
+           "geom": req["geom"], "ndir": ndir, "recipe": req["recipe"], "empty": req["empty"],
+           "types": "+".join(req["types"]), "nstruct": len(req["types"]), "consname": req["consname"], "conskinds": "+".join(kinds),
+           "item_on_uninferred_parameter": unf, "structures_dropped": dropped,
+           "csill": req["csill"] > 0, "optrow": "+".join(sorted(req["optrow"])), "maxiter": req["maxiter"],
+           "wmode": req["wmode"], "truth": req["truthname"], "fails": fails}
+    rec.update(flips)
+    return rec
 
 
 def run(tier):
